@@ -236,11 +236,17 @@ def install(reg):
             ok2 = rest
         if z3.is_int_value(n):
             nn = n.as_long()
+            # digits as fresh byte variables with the (unique) positional decomposition: linear for the solver
+            ds = [z3.Int(fresh_name('digit')) for _ in range(nn)]
+            tot = z3.IntVal(0)
+            for d in ds:
+                tot = tot * 256 + d
+            ok2.fact(x == tot, *[z3.And(d >= 0, d <= 255) for d in ds])
 
-            def at(i, x=x, nn=nn):
+            def at(i, ds=ds):
                 e = z3.IntVal(0)
-                for k in range(nn - 1, -1, -1):
-                    e = z3.If(i == k, (x / (256 ** (nn - 1 - k))) % 256, e)
+                for k in range(len(ds) - 1, -1, -1):
+                    e = z3.If(i == k, ds[k], e)
                 return e
             out.append((ok2, VBytes(z3.IntVal(nn), at)))
         else:
